@@ -260,6 +260,14 @@ theorem reduce_accumulate_keep_unit (C : Ctx K) (c : Call K) (cls : Cls) (u : Un
     simp [dispatch, hin, unaryPath, hk, ho, hr, hnt', hmd', applyRule1, wrapUp, wrapClassFails,
       finishOut, kernelWrites, prepOut]
 
+/-- the operator forms `a == b` / `a != b` (`unyt_array.__eq__`, `__ne__`) never let the two
+    unit refusals escape: they answer all-False / all-True instead, with the effects already done -/
+theorem eq_ne_operator_answers (isNe : Bool) (r : Run K)
+    (h : r.result = .error .UnitOperationError ∨ r.result = .error .IterableUnitCoercionError) :
+    ∃ o, (eqNeOperator isNe r).result = .ok o ∧ o.early = some isNe ∧ o.unit = none
+      ∧ (eqNeOperator isNe r).effects = r.effects := by
+  rcases h with h | h <;> simp [eqNeOperator, h]
+
 /-- keyword operands that the dispatcher forwards to NumPy (`initial=`, `where=`) cannot
     influence the outcome: this is the formal content of the `reduce(initial=…)` finding -/
 theorem dispatch_ignores_keyword_operands (C : Ctx K) (c : Call K) (extra : List (String × Operand K)) :
